@@ -180,7 +180,7 @@ def _seed_count(b, defs, op):
         for d in defs.of(x):
             if d[0] == "call":
                 nm = callee(d[2])[2]
-                if nm == "derivative":
+                if nm in ("derivative", "derivative1", "derivative2"):      # num-dual seeding builders
                     n += 1
                 for a in d[2]["args"]:
                     if a.get("k") in ("copy", "move"):
